@@ -262,3 +262,93 @@ func c06FastAnchoring(c *hx.Ctx) {
 		c.Distinct(fmt.Sprintf("c06fa|%d|%d", len(states), i))
 	})
 }
+
+// c06OneNodeManyQueries: one operation store that hands out its own slice (like the library's mock store), one unpublished
+// store, one processor - and a long series of read-only queries (latest, every version id, every version time, with pending
+// unpublished operations stamped inside the anchored time range). Queries are reads: asking them again gives the same answers.
+func c06OneNodeManyQueries(c *hx.Ctx, unis []*Universe, p protocol.Protocol, pc protocol.Client) {
+	n := c.N(300, 5000)
+	root := c.Rng("one-node")
+	seeds := make([]uint64, n)
+	for i := range seeds {
+		seeds[i] = root.U64()
+	}
+	hx.Parallel(n, 16, func(i int) {
+		if c.Violations() > 8 {
+			return
+		}
+		r := hx.NewRng(seeds[i], "c06n")
+		u := unis[i%len(unis)]
+		var pub, unpub []*ref.Op
+		used := map[[2]uint64]bool{}
+		nOps := 3 + r.Intn(6)
+		for k := 0; k < nOps; k++ {
+			l := hx.Pick(r, []string{"u01", "u12", "u02", "r01", "r12", "d0", "d1", "uF", "u20", "Cdup"})
+			if k == 0 {
+				l = "C"
+			}
+			if k > 0 && r.Chance(1, 3) {
+				unpub = append(unpub, Place(u.Ops[l], uint64(1000+r.Intn(60)), uint64(k), "", p.GenesisTime))
+				continue
+			}
+			var t, num uint64
+			for {
+				t, num = uint64(1000+r.Intn(12)*5), uint64(r.Intn(5))
+				if k == 0 {
+					t = 1000
+				}
+				if !used[[2]uint64{t, num}] {
+					used[[2]uint64{t, num}] = true
+					break
+				}
+			}
+			pub = append(pub, Place(u.Ops[l], t, num, fmt.Sprintf("ref%d", k), p.GenesisTime))
+		}
+		store := hx.NewOpStore()
+		store.ShareSlice = true
+		store.Set(u.Suffix, ToAnchored(u.Suffix, pub))
+		var popts []processor.Option
+		if len(unpub) > 0 {
+			popts = append(popts, processor.WithUnpublishedOperationStore(&unpubStore{ops: ToAnchored(u.Suffix, unpub)}))
+		}
+		proc := processor.New("verif", store, pc, popts...)
+		type query struct {
+			name string
+			opts []document.ResolutionOption
+		}
+		qs := []query{{"latest", nil}}
+		for _, o := range pub {
+			qs = append(qs, query{"versionId=" + o.Ref, []document.ResolutionOption{document.WithVersionID(o.Ref)}})
+		}
+		for t := uint64(999); t <= 1062; t += uint64(1 + r.Intn(4)) {
+			qs = append(qs, query{fmt.Sprintf("versionTime=%d", t), []document.ResolutionOption{document.WithVersionTime(rfc3339(t))}})
+		}
+		qs = append(qs, query{"latest", nil})
+		c.Eval()
+		var first []string
+		for pass := 0; pass < 2; pass++ {
+			for qi, q := range qs {
+				rm, err := proc.Resolve(u.Suffix, q.opts...)
+				k := fullKey(rm, err)
+				if pass == 0 {
+					first = append(first, k)
+					if qi == len(qs)-1 && k != first[0] {
+						c.Violation(fmt.Sprintf("C06 the latest resolution changed after a series of version queries on the same node (store hands out its own slice): published [%s] pending [%s]\n   before: %s\n   after:  %s",
+							histString(pub), histString(unpub), first[0], k), map[string]interface{}{"published": replayOps(pub), "pending": replayOps(unpub)})
+						return
+					}
+					continue
+				}
+				if k != first[qi] {
+					c.Violation(fmt.Sprintf("C06 query %s answered differently when asked again on the same node (store hands out its own slice; queries in between: version ids and version times): published [%s] pending [%s]\n   first:  %s\n   second: %s",
+						q.name, histString(pub), histString(unpub), first[qi], k), map[string]interface{}{"published": replayOps(pub), "pending": replayOps(unpub), "query": q.name})
+					return
+				}
+			}
+		}
+		c.Count("nodes_queried_repeatedly")
+		if len(unpub) > 0 {
+			c.Count("nodes_queried_repeatedly_with_pending_operations")
+		}
+	})
+}
